@@ -99,19 +99,26 @@ def run(res, tier):
     # identity), lightly damped plant: the cascade must be the documented one (one copy of the SISO filter per channel)
     w_diag = (np.diag([0.9, 0.5]), np.array([[1.0], [1.0]]), np.array([[0.5, -0.4]]), np.array([[0.2]]))
     w_tri = (np.array([[0.7, 0.4], [0.0, 0.6]]), np.array([[0.0], [1.0]]), np.array([[1.0, 0.2]]), np.array([[0.5]]))
-    sweep = [(c, t, w) for c in (L.LmiEdmdHinfReg, L.LmiDmdcHinfReg) for t in ('pre', 'post') for w in (w_diag, w_tri)]
-    for j, (cls, typ, wss) in enumerate(sweep if tier != 'quick' else sweep[::2] + sweep[1::4]):
+    # modal second-order filter with poles of opposite sign; used with heavier regularisation and white-noise inputs
+    w_modal = (np.diag([0.5, -0.3]), np.array([[1.0], [1.0]]), np.array([[0.8, -0.4]]), np.array([[0.2]]))
+    sweep = [(c, t, w, 0.1) for c in (L.LmiEdmdHinfReg, L.LmiDmdcHinfReg) for t in ('pre', 'post') for w in (w_diag, w_tri)]
+    extra = [(c, 'pre', w_modal, 1.0) for c in (L.LmiEdmdHinfReg, L.LmiDmdcHinfReg)]
+    for j, (cls, typ, wss, alpha) in enumerate((sweep if tier != 'quick' else sweep[::2] + sweep[1::4]) + extra):
         A0 = np.array([[0.9, 0.2, 0.0], [-0.2, 0.9, 0.1], [0.0, -0.1, 0.8]]); B0 = np.array([[0.5, 0.0], [0.0, 0.3], [0.2, 0.4]])
+        if alpha == 1.0:
+            B0 = rng.normal(size=(3, 2))
         rows = []
         for e in range(2):
             x = rng.normal(size=3)
             for k in range(60):
                 u = np.array([np.sin(0.05 * k * (e + 1)), np.cos(0.11 * k)]) + 0.3 * rng.normal(size=2)
+                if alpha == 1.0:
+                    u = rng.normal(size=2)
                 rows.append([float(e)] + list(x) + list(u))
                 x = A0 @ x + B0 @ u
         X = np.array(rows)
         try:
-            reg = cls(alpha=0.1, max_iter=8, weight=(typ,) + wss, solver_params=lmi.SOLVER).fit(X, n_inputs=2, episode_feature=True)
+            reg = cls(alpha=alpha, max_iter=8 if alpha != 1.0 else 15, weight=(typ,) + wss, solver_params=lmi.SOLVER).fit(X, n_inputs=2, episode_feature=True)
         except Exception:  # noqa
             dist['fit_error'] = dist.get('fit_error', 0) + 1
             continue
